@@ -19,6 +19,8 @@ extern int g_jitter;
 extern long g_rng_draws;
 // host name returned by QHostInfo::localHostName()
 extern QString g_hostname;
+// the simulated node on whose behalf code is currently running (engine "net"); timers remember it
+extern int g_node;
 
 static const int64_t EPOCH_MS = 1600000000000LL;  // virtual instant 0 on the wall clock
 
@@ -28,6 +30,7 @@ struct TimerRec {
     int interval;
     int64_t deadline;
     uint64_t seq;
+    int node;
 };
 
 class Dispatcher : public QAbstractEventDispatcher
@@ -42,7 +45,7 @@ public:
     void unregisterSocketNotifier(QSocketNotifier *) override {}
     void registerTimer(int timerId, int interval, Qt::TimerType, QObject *object) override
     {
-        timers.push_back({timerId, object, interval, g_now + interval, ++seq});
+        timers.push_back({timerId, object, interval, g_now + interval, ++seq, g_node});
     }
     bool unregisterTimer(int timerId) override
     {
